@@ -323,6 +323,36 @@ package aggregate
 //@   loop#1 invariant forall k attribute.Distinct : has(e.values, k) == old(has(e.values, k)) && (has(e.values, k) ==> e.values[k] == old(e.values[k]) && e.values[k] != nil && e.values[k].res != nil && *e.values[k] === old(*e.values[k]))
 //@   loop#1 invariant forall j in 0 .. i : exists k attribute.Distinct : old(has(e.values, k)) && hDPts[j].Count == old(e.values[k].count) && hDPts[j].Scale == old(e.values[k].scale) && hDPts[j].ZeroCount == old(e.values[k].zeroCount) && hDPts[j].PositiveBucket.Offset == old(e.values[k].posBuckets.startBin) && hDPts[j].NegativeBucket.Offset == old(e.values[k].negBuckets.startBin) && len(hDPts[j].PositiveBucket.Counts) == old(len(e.values[k].posBuckets.counts)) && len(hDPts[j].NegativeBucket.Counts) == old(len(e.values[k].negBuckets.counts))
 
+// exponential histogram, cumulative collection: the same point contents as delta (count, scale, zero count, both offsets, both
+// bucket-count lengths taken from the stream - whether or not the stream has negative buckets, a reused destination slot never
+// keeps stale counts), but the streams are kept and the start time stays fixed
+//@ func (e *expoHistogram[N]) cumulative(dest *metricdata.Aggregation) (n int)
+//@   prop C08 C07
+//@   instances int64; float64
+//@   acquires e.valuesMu
+//@   overflow assumed
+//@   unchecked frame the destination's previous data point and bucket slices may be reused in place
+//@   requires e != nil && e.values != nil && dest != nil
+//@   requires forall k attribute.Distinct : has(e.values, k) ==> e.values[k] != nil && e.values[k].res != nil
+//@   ensures n == old(len(e.values)) && len(e.values) == old(len(e.values)) && e.start === old(e.start)
+//@   ensures typeis(*dest, "metricdata.ExponentialHistogram[$N]") && cast(*dest, "metricdata.ExponentialHistogram[$N]").Temporality == metricdata.CumulativeTemporality && len(cast(*dest, "metricdata.ExponentialHistogram[$N]").DataPoints) == n
+//@   ensures forall j in 0 .. n : exists k attribute.Distinct : old(has(e.values, k)) && cast(*dest, "metricdata.ExponentialHistogram[$N]").DataPoints[j].Count == old(e.values[k].count) && cast(*dest, "metricdata.ExponentialHistogram[$N]").DataPoints[j].Scale == old(e.values[k].scale) && cast(*dest, "metricdata.ExponentialHistogram[$N]").DataPoints[j].NegativeBucket.Offset == old(e.values[k].negBuckets.startBin) && len(cast(*dest, "metricdata.ExponentialHistogram[$N]").DataPoints[j].NegativeBucket.Counts) == old(len(e.values[k].negBuckets.counts)) && len(cast(*dest, "metricdata.ExponentialHistogram[$N]").DataPoints[j].PositiveBucket.Counts) == old(len(e.values[k].posBuckets.counts))
+//@   assert@store Count#* : $val == val.count
+//@   assert@store Scale#* : $val == val.scale
+//@   assert@store ZeroCount#* : $val == val.zeroCount
+//@   assert@store StartTime#* : $val === old(e.start)
+//@   assert@store Time#* : $val === t
+//@   assert@store Offset#1 : $val == val.posBuckets.startBin
+//@   assert@store Offset#2 : $val == val.negBuckets.startBin
+//@   assert@store Counts#1 : len($val) == len(val.posBuckets.counts)
+//@   assert@store Counts#2 : len($val) == len(val.negBuckets.counts)
+//@   assert@call copy#1 : samearray($arg1, val.posBuckets.counts) && len($arg0) == len(val.posBuckets.counts) && len($arg1) == len($arg0)
+//@   assert@call copy#2 : samearray($arg1, val.negBuckets.counts) && len($arg0) == len(val.negBuckets.counts) && len($arg1) == len($arg0)
+//@   loop#1 invariant i == $iter && 0 <= i && i <= n && len(hDPts) == n && e.start === old(e.start)
+//@   loop#1 invariant forall k attribute.Distinct : has(e.values, k) == old(has(e.values, k)) && (has(e.values, k) ==> e.values[k] == old(e.values[k]) && e.values[k] != nil && e.values[k].res != nil && *e.values[k] === old(*e.values[k]))
+//@   loop#1 invariant forall j in 0 .. i : exists k attribute.Distinct : old(has(e.values, k)) && hDPts[j].Count == old(e.values[k].count) && hDPts[j].Scale == old(e.values[k].scale) && hDPts[j].ZeroCount == old(e.values[k].zeroCount) && hDPts[j].PositiveBucket.Offset == old(e.values[k].posBuckets.startBin) && hDPts[j].NegativeBucket.Offset == old(e.values[k].negBuckets.startBin) && len(hDPts[j].PositiveBucket.Counts) == old(len(e.values[k].posBuckets.counts)) && len(hDPts[j].NegativeBucket.Counts) == old(len(e.values[k].negBuckets.counts))
+//@   ensures forall k attribute.Distinct : has(e.values, k) == old(has(e.values, k)) && (has(e.values, k) ==> e.values[k] == old(e.values[k]) && *e.values[k] === old(*e.values[k]))
+
 // getBin for scale <= 0: with v = frac * 2^exp, 1/2 <= frac < 1 (math.Frexp) the unique e with 2^e < v <= 2^(e+1) is
 // exp-2 when frac == 1/2 (v is an exact power of two) and exp-1 otherwise; the index i at scale -k satisfies
 // i*2^k <= e and e+1 <= (i+1)*2^k, i.e. (2^e, 2^(e+1)] lies inside bucket i = (base^i, base^(i+1)], base = 2^(2^k).
